@@ -7,7 +7,7 @@ Definition g_xls_ints : list N := [0; 4; 2; 47]%N.
 Definition g_min_doc_size : nat := 512.
 Definition g_doc_magics : list N := [42476; 42460]%N.
 Definition g_fib_flags_offset : nat := 10.
-Definition g_fib_flag : N := 512%N.
+Definition g_fib_flag : N := 256%N.
 Definition g_aes_prefix : list N := [6;241;7]%N.
 Definition g_epub_findall : str := (s ".//{http://www.w3.org/2001/04/xmlenc#}EncryptedData").
 Definition g_obfuscation : list str := [(s "http://ns.adobe.com/pdf/enc#RC"); (s "http://www.idpf.org/2008/embedding")].
